@@ -15,7 +15,7 @@ namespace IstioModel.C13
 def gwVal (acc : List (Gw × Nat)) (g : Gw) : Nat := (acc.lookup g).getD 0
 
 theorem gwVal_addShare (acc : List (Gw × Nat)) (g g' : Gw) (s : Nat) :
-    gwVal (addShare acc g s) g' = if g' = g then (gwVal acc g + s) % two32 else gwVal acc g' := by
+    gwVal (addShare acc g s) g' = if g' = g then addU32 (gwVal acc g) s else gwVal acc g' := by
   induction acc with
   | nil =>
     by_cases h : g' = g
@@ -62,7 +62,7 @@ theorem keys_addShare (acc : List (Gw × Nat)) (g g' : Gw) (s : Nat) :
         · exact Or.inr (Or.inr h)
 
 theorem gwVal_splitWeight (gws : List Gw) (hn : gws.Nodup) (acc : List (Gw × Nat)) (g : Gw) (s : Nat) :
-    gwVal (splitWeight acc gws s) g = if g ∈ gws then (gwVal acc g + s) % two32 else gwVal acc g := by
+    gwVal (splitWeight acc gws s) g = if g ∈ gws then addU32 (gwVal acc g) s else gwVal acc g := by
   induction gws generalizing acc with
   | nil => simp [splitWeight]
   | cons x t ih =>
@@ -142,26 +142,75 @@ theorem via_nodup (b : Builder) (all : List Gw) (hall : all.Nodup) (e : Ep) (gws
         · cases h
         · cases h; exact hreach
 
+theorem addU32_eq_min (l r : Nat) (hr : r ≤ maxU32) : addU32 l r = min (l + r) maxU32 := by
+  unfold addU32
+  split
+  · next h => rw [Nat.min_eq_right]; omega
+  · next h => rw [Nat.min_eq_left]; omega
+
+theorem scaleW_le (w scale : Nat) (hs : 0 < scale) : scaleW w scale ≤ maxU32 := by
+  unfold scaleW
+  split
+  · next h =>
+    have := Nat.mul_lt_mul_of_lt_of_le h (Nat.le_refl scale) hs
+    have h2 : maxU32 / scale * scale ≤ maxU32 := Nat.div_mul_le_self _ _
+    omega
+  · exact Nat.le_refl _
+
+/-- A share sent through a gateway is a uint32. -/
+theorem via_share_le (b : Builder) (all : List Gw) (e : Ep) (gws : List Gw) (share : Nat)
+    (h : route b all e = .via gws share) : share ≤ maxU32 := by
+  have hs : 0 < (let s := scaleFactor all; if s = 0 then 1 else s) := by
+    simp only; split <;> omega
+  have hw := scaleW_le (lbWeight e) _ hs
+  unfold route at h
+  split at h
+  · cases h
+  · simp only at h
+    split at h
+    · split at h <;> cases h
+    · split at h
+      · cases h
+      · split at h
+        · cases h
+        · cases h
+          exact Nat.le_trans (Nat.div_le_self _ _) hw
+
+theorem shareOf_le (b : Builder) (all : List Gw) (g : Gw) (e : Ep) : shareOf b all g e ≤ maxU32 := by
+  unfold shareOf
+  cases hr : route b all e with
+  | direct le => simp
+  | dropped => simp
+  | via gws share =>
+    simp only
+    split
+    · exact via_share_le b all e gws share hr
+    · exact Nat.zero_le _
+
 /-- Fold invariant behind `gateway_weight_per_locality`. -/
 theorem gwVal_fold (b : Builder) (all : List Gw) (hall : all.Nodup) (g : Gw) (eps : List Ep)
-    (acc : List (Gw × Nat)) :
-    gwVal (eps.foldl (netStep b all) acc) g % two32 = (gwVal acc g + (eps.map (shareOf b all g)).sum) % two32 := by
+    (acc : List (Gw × Nat)) (hacc : gwVal acc g ≤ maxU32) :
+    gwVal (eps.foldl (netStep b all) acc) g = min (gwVal acc g + (eps.map (shareOf b all g)).sum) maxU32 := by
   induction eps generalizing acc with
-  | nil => simp
+  | nil => simp [Nat.min_eq_left hacc]
   | cons e t ih =>
     simp only [List.foldl_cons, List.map_cons, List.sum_cons]
-    rw [ih]
-    unfold netStep
-    cases hr : route b all e with
-    | direct le => simp [shareOf, hr]
-    | dropped => simp [shareOf, hr]
-    | via gws share =>
-      simp only [shareOf, hr]
-      rw [gwVal_splitWeight gws (via_nodup b all hall e gws share hr)]
-      by_cases hg : g ∈ gws
-      · simp only [hg, if_true]
-        rw [Nat.add_mod, Nat.mod_mod, ← Nat.add_mod, Nat.add_assoc]
-      · simp [hg]
+    have hsh := shareOf_le b all g e
+    have hstep : gwVal (netStep b all acc e) g = min (gwVal acc g + shareOf b all g e) maxU32 := by
+      unfold netStep shareOf
+      cases hr : route b all e with
+      | direct le => simp [Nat.min_eq_left hacc]
+      | dropped => simp [Nat.min_eq_left hacc]
+      | via gws share =>
+        simp only
+        rw [gwVal_splitWeight gws (via_nodup b all hall e gws share hr)]
+        by_cases hg : g ∈ gws
+        · simp only [hg, if_true]
+          exact addU32_eq_min _ _ (via_share_le b all e gws share hr)
+        · simp [hg, Nat.min_eq_left hacc]
+    rw [ih _ (by rw [hstep]; exact Nat.min_le_right _ _), hstep]
+    simp only [Nat.min_def]
+    split <;> split <;> split <;> omega
 
 theorem keys_fold (b : Builder) (all : List Gw) (g : Gw) (eps : List Ep) (acc : List (Gw × Nat)) :
     g ∈ (eps.foldl (netStep b all) acc).map (·.1) ↔ g ∈ acc.map (·.1) ∨ ∃ e ∈ eps, routedVia b all g e := by
@@ -187,11 +236,11 @@ theorem keys_fold (b : Builder) (all : List Gw) (g : Gw) (eps : List Ep) (acc : 
         · exact Or.inr h
 
 /-- **gateway_weight_per_locality.** In one locality, the weight accumulated for a gateway is the
-    (uint32) sum of the shares of that locality's remote members routed through it - members of
-    other localities contribute nothing. -/
+    sum (saturating at the largest uint32) of the shares of that locality's remote members routed
+    through it - members of other localities contribute nothing. -/
 theorem gateway_weight_per_locality (b : Builder) (all : List Gw) (hall : all.Nodup) (eps : List Ep) (g : Gw) :
-    gwVal (gwWeights b all eps) g % two32 = (eps.map (shareOf b all g)).sum % two32 := by
-  have := gwVal_fold b all hall g eps []
+    gwVal (gwWeights b all eps) g = min ((eps.map (shareOf b all g)).sum) maxU32 := by
+  have := gwVal_fold b all hall g eps [] (by simp [gwVal])
   simpa [gwWeights, gwVal] using this
 
 /-- **no_phantom_gateway.** A gateway has an entry in a locality only if some member of that
@@ -226,20 +275,194 @@ theorem filterGroup_endpoints (b : Builder) (all : List Gw) (g : Group) (le : Lb
 
 /-- Without configured gateways the filter changes nothing (single-network meshes). -/
 theorem networkFilter_single (b : Builder) (gs : List Group) :
-    networkFilter b [] gs = gs.map Group.toOut := by
+    networkFilter b [] gs = gs.map (Group.toOut b) := by
   simp [networkFilter]
 
-/-- Every locality of the input survives, in order (possibly empty), with the uint32 sum of its
-    endpoints' weights. -/
+theorem refreshWeight_eq (eps : List LbEp) (acc : Nat) (hacc : acc ≤ maxU32) (hw : ∀ e ∈ eps, e.weight ≤ maxU32) :
+    eps.foldl (fun w e => addU32 w e.weight) acc = min (acc + (eps.map (·.weight)).sum) maxU32 := by
+  induction eps generalizing acc with
+  | nil => simp [Nat.min_eq_left hacc]
+  | cons e t ih =>
+    have he := hw e List.mem_cons_self
+    simp only [List.foldl_cons, List.map_cons, List.sum_cons]
+    rw [ih _ (by rw [addU32_eq_min _ _ he]; exact Nat.min_le_right _ _) (fun x hx => hw x (List.mem_cons_of_mem _ hx)),
+      addU32_eq_min _ _ he]
+    simp only [Nat.min_def]
+    split <;> split <;> split <;> omega
+
+/-- Every locality of the input survives, in order (possibly empty), and its weight is the sum of
+    its endpoints' weights, saturating at the largest uint32 (repaired `refreshWeight`; the pinned
+    code wrapped around: `weight_wrap_pinned_witness`). -/
 theorem networkFilter_groups (b : Builder) (all : List Gw) (hne : all ≠ []) (gs : List Group) :
     (networkFilter b all gs).map (·.loc) = gs.map (·.loc) ∧
-    ∀ og ∈ networkFilter b all gs, og.weight = (og.eps.map (·.weight)).sum % two32 := by
+    ∀ og ∈ networkFilter b all gs, (∀ e ∈ og.eps, e.weight ≤ maxU32) →
+      og.weight = min ((og.eps.map (·.weight)).sum) maxU32 := by
   have : all.isEmpty = false := by cases all <;> simp_all
   constructor
   · simp [networkFilter, this, filterGroup, Function.comp_def]
-  · intro og hog
+  · intro og hog hw
     simp only [networkFilter, this, Bool.false_eq_true, if_false, List.mem_map] at hog
     obtain ⟨g, _, rfl⟩ := hog
-    rfl
+    have := refreshWeight_eq (filterGroup b all g).eps 0 (Nat.zero_le _) hw
+    simpa [filterGroup, refreshWeight] using this
+
+/-- Finding (pinned tree, fixed by ace8a3e): `refreshWeight` summed with a plain uint32 `+=`; a locality
+    with endpoint weights 4294967295 and 6 got the locality weight 5. -/
+theorem weight_wrap_pinned_witness :
+    refreshWeightPinned [{ host := "a", port := 1, health := 1, weight := 4294967295 },
+                         { host := "b", port := 1, health := 1, weight := 6 }] = 5 ∧
+    refreshWeight [{ host := "a", port := 1, health := 1, weight := 4294967295 },
+                   { host := "b", port := 1, health := 1, weight := 6 }] = 4294967295 := by
+  decide
+
+/-! ## What "direct / through a gateway / not served" means, from the statement's text -/
+
+/-- The gateways a sidecar may use for an endpoint of network `net` in cluster `cl`: gateways of
+    that network with an mTLS port; those in the endpoint's own cluster if the network has any
+    gateway there, otherwise all of the network. -/
+theorem selectGws_spec (all : List Gw) (net cl : String) (g : Gw) :
+    g ∈ selectGws all net cl ↔
+      g ∈ all ∧ g.net = net ∧ g.port ≠ 0 ∧
+      (g.cluster = cl ∨ ¬ ∃ g' ∈ all, g'.net = net ∧ g'.cluster = cl) := by
+  unfold selectGws
+  simp only [List.mem_filter, bne_iff_ne, ne_eq]
+  by_cases hnc : (sortGws (all.filter fun g => g.net == net && g.cluster == cl)).isEmpty = true
+  · have hnone : ¬ ∃ g' ∈ all, g'.net = net ∧ g'.cluster = cl := by
+      rintro ⟨g', hg', h1, h2⟩
+      have : g' ∈ sortGws (all.filter fun g => g.net == net && g.cluster == cl) :=
+        (sortGws_perm _).mem_iff.mpr (by simp [hg', h1, h2])
+      rw [List.isEmpty_iff.mp hnc] at this; cases this
+    simp only [hnc, if_true, (sortGws_perm _).mem_iff, List.mem_filter, beq_iff_eq]
+    constructor
+    · rintro ⟨⟨h1, h2⟩, h3⟩; exact ⟨h1, h2, h3, Or.inr hnone⟩
+    · rintro ⟨h1, h2, h3, _⟩; exact ⟨⟨h1, h2⟩, h3⟩
+  · simp only [hnc, Bool.false_eq_true, if_false, (sortGws_perm _).mem_iff, List.mem_filter,
+      Bool.and_eq_true, beq_iff_eq]
+    have hsome : ∃ g' ∈ all, g'.net = net ∧ g'.cluster = cl := by
+      cases hl : sortGws (all.filter fun g => g.net == net && g.cluster == cl) with
+      | nil => simp [hl] at hnc
+      | cons x t =>
+        have : x ∈ sortGws (all.filter fun g => g.net == net && g.cluster == cl) := by rw [hl]; exact List.mem_cons_self
+        have := (sortGws_perm _).mem_iff.mp this
+        simp only [List.mem_filter, Bool.and_eq_true, beq_iff_eq] at this
+        exact ⟨x, this.1, this.2.1, this.2.2⟩
+    constructor
+    · rintro ⟨⟨h1, h2, h3⟩, h4⟩; exact ⟨h1, h2, h4, Or.inl h3⟩
+    · rintro ⟨h1, h2, h3, h4 | h4⟩
+      · exact ⟨⟨h1, h2, h4⟩, h3⟩
+      · exact absurd hsome h4
+
+/-- The gateways a proxy can reach: all of them if its IP family is unknown or it is dual stack,
+    otherwise those of its own family (an IPv4-mapped IPv6 address is IPv4). -/
+theorem reachableGws_spec (b : Builder) (gws : List Gw) (g : Gw) :
+    g ∈ reachableGws b gws ↔
+      g ∈ gws ∧ (b.proxyV4 = b.proxyV6 ∨ (isV6 g.addr = false ∧ b.proxyV4 = true) ∨ (isV6 g.addr = true ∧ b.proxyV6 = true)) := by
+  unfold reachableGws
+  cases h4 : b.proxyV4 <;> cases h6 : b.proxyV6 <;> simp [List.mem_filter]
+
+/-- Same or unknown network (`Proxy.InNetwork`). -/
+def sameNetwork (b : Builder) (e : Ep) : Prop := e.net = "" ∨ b.proxyNetwork = "" ∨ e.net = b.proxyNetwork
+
+/-- The endpoint has to be reached through a gateway: its network has a usable gateway, and it is on
+    another network - or the proxy does not know its own network while the endpoint's is known. -/
+def remote (b : Builder) (all : List Gw) (e : Ep) : Prop :=
+  selectGws all e.net e.cluster ≠ [] ∧ (¬ sameNetwork b e ∨ (b.proxyNetwork = "" ∧ e.net ≠ ""))
+
+/-- The scaled weight of an endpoint. -/
+def scaledWeight (all : List Gw) (e : Ep) : Nat :=
+  scaleW (lbWeight e) (let s := scaleFactor all; if s = 0 then 1 else s)
+
+/-- **routeSpec - written from the statement's text, not from the filter's code.**
+    * an endpoint the proxy may not see is not served;
+    * an endpoint on the same (or an unknown) network, or whose network has no gateway, is served
+      with its **own address** (scaled weight) - or not at all if it has none to connect to;
+    * a remote endpoint is **never** served with its own address: with mTLS and a gateway the proxy
+      can reach, its weight is split evenly among the reachable gateways of its network; otherwise
+      it is not served. -/
+def routeSpec (b : Builder) (all : List Gw) (e : Ep) (r : Route) : Prop :=
+  (visible b e = false → r = .dropped) ∧
+  (visible b e = true → ¬ remote b all e →
+    (((lbOf b e).pipe = false ∧ (lbOf b e).host ≠ "") → r = .direct { lbOf b e with weight := scaledWeight all e }) ∧
+    (¬ ((lbOf b e).pipe = false ∧ (lbOf b e).host ≠ "") → r = .dropped)) ∧
+  (visible b e = true → remote b all e →
+    (∀ le, r ≠ .direct le) ∧
+    ((mtlsOn b e = true ∧ reachableGws b (selectGws all e.net e.cluster) ≠ []) →
+      r = .via (reachableGws b (selectGws all e.net e.cluster))
+               (scaledWeight all e / (reachableGws b (selectGws all e.net e.cluster)).length)) ∧
+    (¬ (mtlsOn b e = true ∧ reachableGws b (selectGws all e.net e.cluster) ≠ []) → r = .dropped))
+
+theorem remote_iff (b : Builder) (all : List Gw) (e : Ep) :
+    remote b all e ↔
+      ¬ ((!(b.proxyNetwork == "" && e.net != "" && !(selectGws all e.net e.cluster).isEmpty) &&
+          (sameOrEmpty e.net b.proxyNetwork || (selectGws all e.net e.cluster).isEmpty)) = true) := by
+  unfold remote sameNetwork sameOrEmpty
+  cases hg : selectGws all e.net e.cluster with
+  | nil => simp
+  | cons x t =>
+    by_cases h1 : e.net = "" <;> by_cases h2 : b.proxyNetwork = "" <;> by_cases h3 : e.net = b.proxyNetwork <;>
+      simp_all
+
+/-- **`route` is `routeSpec`**: the filter's per-endpoint decision satisfies the specification ... -/
+theorem route_satisfies_spec (b : Builder) (all : List Gw) (e : Ep) : routeSpec b all e (route b all e) := by
+  unfold routeSpec
+  refine ⟨?_, ?_, ?_⟩
+  · intro hv; simp [route, hv]
+  · intro hv hnr
+    have hc := (not_congr (remote_iff b all e)).mp hnr
+    simp only [Decidable.not_not] at hc
+    constructor
+    · intro hd
+      simp only [route, hv, Bool.not_true, Bool.false_eq_true, if_false, hc, if_true, scaledWeight]
+      simp [hd.1, hd.2]
+    · intro hd
+      simp only [route, hv, Bool.not_true, Bool.false_eq_true, if_false, hc, if_true]
+      by_cases h1 : (lbOf b e).pipe = false
+      · by_cases h2 : (lbOf b e).host = ""
+        · simp [h1, h2]
+        · exact absurd ⟨h1, h2⟩ hd
+      · simp [h1]
+  · intro hv hr
+    have hc := (remote_iff b all e).mp hr
+    have hc' : (!(b.proxyNetwork == "" && e.net != "" && !(selectGws all e.net e.cluster).isEmpty) &&
+          (sameOrEmpty e.net b.proxyNetwork || (selectGws all e.net e.cluster).isEmpty)) = false := by
+      simpa using hc
+    refine ⟨?_, ?_, ?_⟩
+    · intro le
+      simp only [route, hv, Bool.not_true, Bool.false_eq_true, if_false, hc']
+      split
+      · simp
+      · split <;> simp
+    · rintro ⟨hm, hre⟩
+      have hre' : (reachableGws b (selectGws all e.net e.cluster)).isEmpty = false := by
+        cases h : reachableGws b (selectGws all e.net e.cluster) <;> simp_all
+      simp only [route, hv, Bool.not_true, Bool.false_eq_true, if_false, hc', hre', hm, scaledWeight]
+    · intro hn
+      simp only [route, hv, Bool.not_true, Bool.false_eq_true, if_false, hc']
+      by_cases hre : (reachableGws b (selectGws all e.net e.cluster)).isEmpty = true
+      · simp [hre]
+      · have hre' : reachableGws b (selectGws all e.net e.cluster) ≠ [] := by
+          intro h; simp [h] at hre
+        have hm : mtlsOn b e = false := by
+          cases hm : mtlsOn b e
+          · rfl
+          · exact absurd ⟨hm, hre'⟩ hn
+        simp [hre, hm]
+
+/-- ... and the specification determines the decision: `route b all e` is the only `r` with
+    `routeSpec b all e r`. -/
+theorem routeSpec_unique (b : Builder) (all : List Gw) (e : Ep) (r : Route) (h : routeSpec b all e r) :
+    r = route b all e := by
+  have h0 := route_satisfies_spec b all e
+  obtain ⟨a1, a2, a3⟩ := h
+  obtain ⟨b1, b2, b3⟩ := h0
+  cases hv : visible b e
+  · rw [a1 hv, b1 hv]
+  · by_cases hr : remote b all e
+    · by_cases hc : mtlsOn b e = true ∧ reachableGws b (selectGws all e.net e.cluster) ≠ []
+      · rw [(a3 hv hr).2.1 hc, (b3 hv hr).2.1 hc]
+      · rw [(a3 hv hr).2.2 hc, (b3 hv hr).2.2 hc]
+    · by_cases hc : (lbOf b e).pipe = false ∧ (lbOf b e).host ≠ ""
+      · rw [(a2 hv hr).1 hc, (b2 hv hr).1 hc]
+      · rw [(a2 hv hr).2 hc, (b2 hv hr).2 hc]
 
 end IstioModel.C13
